@@ -335,6 +335,10 @@ def run_check(prop, tier="quick", seed=0, jobs=None, budget_s=None):
     t0 = time.time()
     jobs = jobs or int(os.environ.get("VERIF_JOBS", "16"))
     fams = props.families(prop)
+    only = os.environ.get("VERIF_FAMILIES")
+    if only:
+        # development aid (soaking single families); never set by the registered commands
+        fams = [f for f in fams if f.name in only.split(",")]
     meta = props.META[prop]
     if budget_s is None:
         budget_s = float(os.environ.get("VERIF_BUDGET_S", "42" if tier == "quick" else "900"))
